@@ -1274,24 +1274,50 @@ impl Session {
                         continue;
                     }
 
+                    // The request must not outlive the deadline of the oldest unanswered one: a transport that is
+                    // stuck (a dead peer that no longer reads) must not keep this task from giving the peer up
                     let sent_at = Instant::now();
-                    if let Err(e) = session
-                        .write_control_frame(Frame::control(Command::HeartRequest, 0))
-                        .await
-                    {
-                        tracing::error!(
-                            session_id = session_id,
-                            "[Session] Failed to send HeartRequest: {}",
-                            e
-                        );
-                        if let Err(close_err) = session.close().await {
+                    let oldest = match waiting_since {
+                        Some(sent) => sent,
+                        None => sent_at,
+                    };
+                    let write =
+                        session.write_control_frame(Frame::control(Command::HeartRequest, 0));
+                    let written = match oldest.checked_add(heartbeat_state.timeout) {
+                        Some(at) => match time::timeout_at(at, write).await {
+                            Ok(result) => Some(result),
+                            Err(_) => None,
+                        },
+                        None => Some(write.await),
+                    };
+                    match written {
+                        Some(Ok(())) => {}
+                        Some(Err(e)) => {
+                            tracing::error!(
+                                session_id = session_id,
+                                "[Session] Failed to send HeartRequest: {}",
+                                e
+                            );
+                            if let Err(close_err) = session.close().await {
+                                tracing::warn!(
+                                    session_id = session_id,
+                                    "[Session] Failed to close session after heartbeat error: {}",
+                                    close_err
+                                );
+                            }
+                            break;
+                        }
+                        None => {
+                            // Not written in time: it counts as sent and unanswered; the check above decides
                             tracing::warn!(
                                 session_id = session_id,
-                                "[Session] Failed to close session after heartbeat error: {}",
-                                close_err
+                                "[Session] HeartRequest could not be written before the keep-alive deadline"
                             );
+                            if waiting_since.is_none() {
+                                waiting_since = Some(sent_at);
+                            }
+                            continue;
                         }
-                        break;
                     }
 
                     if waiting_since.is_none() {
